@@ -524,6 +524,18 @@ class ContractMixin:
                 v = self.need_value(v)
                 outs.append((s2, SV(TBool, self.isinstance_term(s2, v, cls))))
             return outs
+        if name == 'is_prefix':
+            # is_prefix(a, b): sequence a is an initial segment of sequence b
+            outs = []
+            for s2, (a, b) in self.eval_many(st, e.args):
+                a, b = self.need_value(a), self.need_value(b)
+                if isinstance(b.ty, TSeq) and b.ty.elem is TBottom:
+                    outs.append((s2, SV(TBool, z3.Length(a.t) == 0)))
+                elif isinstance(a.ty, TSeq) and a.ty.elem is TBottom:
+                    outs.append((s2, SV(TBool, z3.BoolVal(True))))
+                else:
+                    outs.append((s2, SV(TBool, z3.PrefixOf(a.t, coerce(b, a.ty, self.classes).t))))
+            return outs
         if name == 'unchanged':
             # unchanged(obj.field): same value as in the pre-state
             cur = self.eval(st, e.args[0])
